@@ -223,28 +223,52 @@ func (in *inst) step(e Entry, out int, ans int, at float64) (si stepInfo, f *fai
 
 // rotation of entry points and outcome kinds along the expansion path: a fixed mixing function of
 // (op index, call index inside a burst), so that every live entry point and every outcome kind
-// that means success / failure occurs on expansion paths. Deterministic; not random testing: the
-// look-ahead covers the full matrix in every state anyway.
+// that means success / failure (incl. the value family) occurs on expansion paths. Deterministic;
+// not random testing: the look-ahead covers the matrix in the states themselves.
 func rotate(idx, j int, success bool) (Entry, int) {
 	h := uint32(idx)*2654435761 + uint32(j)*40503 + 12345
 	h ^= h >> 13
 	h *= 0x5bd1e995
 	h ^= h >> 15
-	e := liveEntries[int(h%uint32(len(liveEntries)))]
-	sel := int((h >> 8) % 4)
-	if success {
-		if (e.hasAcceptable() || e.Base == bAllow) && sel < 2 {
-			return e, oAccErr // a non-nil error the predicate accepts
+	if rotCands == nil {
+		rotCands = buildRotCands()
+	}
+	e := rotEntries[int(h%uint32(len(rotEntries)))]
+	c := rotCands[rotKey{e, success}]
+	return e, c[int((h>>8)%uint32(len(c)))]
+}
+
+type rotKey struct {
+	e       Entry
+	success bool
+}
+
+// rotCands: per entry, the outcomes that must be recorded as a success / as a failure.
+var (
+	rotCands   map[rotKey][]int
+	rotEntries []Entry // every form that reaches the breaker
+)
+
+func buildRotCands() map[rotKey][]int {
+	m := map[rotKey][]int{}
+	rotEntries = append(append([]Entry{}, liveEntries...), extraEntries...)
+	for _, e := range rotEntries {
+		for _, out := range append(outcomesOf(e), valueOutcomesOf(e)...) {
+			k := rotKey{e, wantKind(e, out) == KS}
+			m[k] = append(m[k], out)
 		}
-		return e, oOK
+		// keep plain ok / plain failure frequent: half of the picks
+		for _, k := range []rotKey{{e, true}, {e, false}} {
+			plain := oOK
+			if !k.success {
+				plain = oBad
+			}
+			for n := len(m[k]); n > 1; n-- {
+				m[k] = append(m[k], plain)
+			}
+		}
 	}
-	if e.Base != bAllow && sel < 2 {
-		return e, oPanic
-	}
-	if !e.hasAcceptable() && e.Base != bAllow && sel == 2 {
-		return e, oAccErr // an error the default predicate (err == nil) does not accept
-	}
-	return e, oBad
+	return m
 }
 
 func (in *inst) apply(idx int, op Op) *fail {
@@ -327,6 +351,7 @@ type probeStats struct {
 	Coin     int  `json:"coin"`
 	Forced   int  `json:"forced"`
 	Shed     int  `json:"shed"`
+	Value    int  `json:"val"`
 	Law      bool `json:"law"`
 }
 
@@ -374,8 +399,37 @@ func probeAll(path []Op) (st probeStats, f *fail, fp *Probe) {
 		return st, &fail{"done-ctx-changed-state", "calls with done contexts changed the breaker state: " + before + " -> " + after}, &Probe{E: doneEntries[0], Out: oOK, Ans: ansDrop}
 	}
 	first := true
-	for _, e := range liveEntries {
-		for _, out := range outcomesOf(e) {
+	// outcomes probed in this state: the four kinds through the 18 live entry points always; the
+	// value family (values some shortcut could single out: the breaker's own sentinel forwarded by
+	// the request, context errors under a live context, typed nil, ...) and the extra forms (context
+	// cancelled while the request runs, nil fallback) completely in every state of depth
+	// <= valueDepth, and one member of the value family per entry point (a fixed function of the
+	// history) below that.
+	type plan struct {
+		e     Entry
+		outs  []int
+		nbase int
+	}
+	var plans []plan
+	full := len(path) <= valueDepth
+	for ei, e := range liveEntries {
+		outs := outcomesOf(e)
+		nbase := len(outs)
+		if vo := valueOutcomesOf(e); full {
+			outs = append(outs, vo...)
+		} else {
+			outs = append(outs, vo[(pathMix(path)+ei*5)%len(vo)])
+		}
+		plans = append(plans, plan{e, outs, nbase})
+	}
+	if full {
+		for _, e := range extraEntries {
+			plans = append(plans, plan{e, append(outcomesOf(e), valueOutcomesOf(e)...), 0})
+		}
+	}
+	for _, pl := range plans {
+		e, outs, nbase := pl.e, pl.outs, pl.nbase
+		for oi, out := range outs {
 			for _, ans := range []int{ansPass, ansDrop} {
 				p := Probe{E: e, Out: out, Ans: ans}
 				check := first || ans == ansDrop && st.Rejected == 0
@@ -385,6 +439,9 @@ func probeAll(path []Op) (st probeStats, f *fail, fp *Probe) {
 				}
 				si, f := fk.step(p.E, p.Out, p.Ans, 0)
 				st.Probes++
+				if oi >= nbase {
+					st.Value++
+				}
 				if f != nil {
 					return st, f, &p
 				}
@@ -433,6 +490,21 @@ func probeAll(path []Op) (st probeStats, f *fail, fp *Probe) {
 		}
 	}
 	return st, nil, nil
+}
+
+// valueDepth: every state reached by a history of at most this many ops gets the complete value
+// family in its look-ahead (set by runHistory: 3 quick, 4 thorough; C01_VALUE_DEPTH overrides, debugging only).
+var valueDepth = 3
+
+func pathMix(path []Op) int {
+	h := uint32(2166136261)
+	for _, op := range path {
+		for _, c := range []byte(op.String()) {
+			h = (h ^ uint32(c)) * 16777619
+		}
+		h = (h ^ '|') * 16777619
+	}
+	return int(h >> 4 & 0xffffff)
 }
 
 // ---- PBFS plumbing ----
@@ -500,14 +572,19 @@ func hashKey(k string) string {
 
 func runHistory(cfg *vlib.Config, r *vlib.Report, deadline time.Time) {
 	depth := 5
+	valueDepth = 3
 	if cfg.Thorough() {
 		depth = 7
+		valueDepth = 4
 	}
 	if v, err := strconv.Atoi(os.Getenv("C01_DEPTH")); err == nil && v > 0 {
 		depth = v
 	}
+	if v, err := strconv.Atoi(os.Getenv("C01_VALUE_DEPTH")); err == nil && v >= 0 {
+		valueDepth = v
+	}
 	calls, jumps := alphabetOf(cfg.Thorough())
-	var states, probed, probes, rejProbes, lawStates, forcedStates, shedProbes, coinProbes int
+	var states, probed, probes, rejProbes, lawStates, forcedStates, shedProbes, coinProbes, valueProbes, valueFull int
 	bfs := &vlib.PBFS[Op]{
 		Name:     "history",
 		Cfg:      cfg,
@@ -546,6 +623,10 @@ func runHistory(cfg *vlib.Config, r *vlib.Report, deadline time.Time) {
 				probes += st.Probes
 				rejProbes += st.Rejected
 				shedProbes += st.Shed
+				valueProbes += st.Value
+				if len(path)-1 <= valueDepth {
+					valueFull++
+				}
 				coinProbes += st.Coin
 				if st.Forced > 0 {
 					forcedStates++
@@ -581,7 +662,10 @@ func runHistory(cfg *vlib.Config, r *vlib.Report, deadline time.Time) {
 	r.Count("history_lookahead_rejected", rejProbes)
 	r.Count("history_lookahead_coin_consulted", coinProbes)
 	r.Count("history_shedding_probes", shedProbes)
+	r.Count("history_value_family_calls", valueProbes)
+	r.Count("history_states_with_full_value_family", valueFull)
 	r.Scenario("history", map[string]any{"states": states, "transitions": trans, "states_probed": probed, "lookahead_calls": probes,
+		"value_family_calls": valueProbes, "states_with_full_value_family": valueFull, "value_depth": valueDepth,
 		"depth_bound": depth, "max_depth": out.MaxDepth, "closed": out.Closed, "exhaustive_to_depth": out.Exhaustive, "failures": out.Failures, "cap": out.Cap,
 		"alphabet": fmt.Sprint(append(append([]Op{}, calls...), jumps...))})
 	if !out.Exhaustive {
